@@ -1,17 +1,17 @@
 """Kani contracts on the lock-time primitives (complete: loop-free, full u32 domain)."""
 NAME = "k_locktime"
 ENGINE = "kani"
-PROPS = ("C12", "C17", "C19", "C11")
+PROPS = ("C02", "C12", "C17", "C19", "C11")
 INJECT = [("src/primitives/absolute_locktime.rs", "contracts/kani/k_abslock.rs"),
           ("src/primitives/relative_locktime.rs", "contracts/kani/k_rellock.rs")]
 TRUSTED = ["bitcoin::absolute::LockTime / bitcoin::Sequence are executed as compiled (not stubbed)"]
 HARNESSES = [
     dict(name="abs_from_consensus", fn="AbsLockTime::from_consensus", props=("C12", "C11"), kind="complete",
          tags=["C12:abs_from_consensus.range", "C12:abs_from_consensus.value", "C12:abs_from_consensus.height_unit", "C12:abs_from_consensus.time_unit"]),
-    dict(name="abs_max", fn="AbsLockTime::max", props=("C17", "C11"), kind="complete",
-         tags=["C17:abs_max.none_iff_units_differ", "C17:abs_max.is_larger", "C19:abs_cmp_by_consensus.total"]),
+    dict(name="abs_max", fn="AbsLockTime::max", props=("C02", "C17", "C11"), kind="complete",
+         tags=["C02,C17:abs_max.none_iff_units_differ", "C02,C17:abs_max.is_larger", "C19:abs_cmp_by_consensus.total"]),
     dict(name="rel_from_consensus", fn="RelLockTime::from_consensus", props=("C12", "C11"), kind="complete",
          tags=["C12:rel_from_consensus.range", "C12:rel_from_consensus.value", "C12:rel_from_consensus.time_unit", "C12:rel_from_consensus.height_unit"]),
-    dict(name="rel_max", fn="RelLockTime::max", props=("C17", "C11"), kind="complete",
-         tags=["C17:rel_max.none_iff_units_differ", "C17:rel_max.is_one_of_them", "C17:rel_max.is_larger"]),
+    dict(name="rel_max", fn="RelLockTime::max", props=("C02", "C17", "C11"), kind="complete",
+         tags=["C02,C17:rel_max.none_iff_units_differ", "C02,C17:rel_max.is_one_of_them", "C02,C17:rel_max.is_larger"]),
 ]
